@@ -619,6 +619,7 @@ func (r *Run) Execute() {
 	os.RemoveAll(r.PsDir)
 	os.RemoveAll(r.MroDir)
 	os.RemoveAll(path.Join(r.Root, "ext"))
+	os.RemoveAll(r.PsDir + "_archive")
 	if err := r.writeProgram(r.Prog); err != nil {
 		r.violate("SIM", "setup", err.Error())
 		return
